@@ -96,7 +96,9 @@ CoerceLit(S, t, lit, V) ==
 \* Variable values (JSON-like): clear verdicts only; everything the editions
 \* disagree on is in Unspecified and is never asserted.
 ScalarVarClear(tn, v) ==   \* "accept", "reject" or "unspec"
-  CASE v.k \in {"list", "obj"} -> "reject"
+  \* String, ID and Boolean coerce "anything" in the edition's reference implementation:
+  \* only Int, Float and the harness' custom scalar clearly refuse lists and objects
+  CASE v.k \in {"list", "obj"} -> IF tn \in {"String", "ID", "Boolean"} THEN "unspec" ELSE "reject"
     [] tn = "Int" ->
          CASE v.k = "int" -> IF InInt32(v.v) THEN "accept" ELSE "reject"
            [] v.k = "str" -> IF v.v \in {"abc", ""} THEN "reject" ELSE "unspec"
@@ -173,9 +175,11 @@ VarValues(S, vdefs, inputs) ==
       value(d) == IF IsNullV(provided(d))
                   THEN (IF d.hasDef THEN CoerceLit(S, d.type, d.def, <<>>) ELSE NullV)
                   ELSE CoerceVar(S, d.type, provided(d))
-  IN [verdict |-> Worst({ verdict(vdefs[i]) : i \in 1..Len(vdefs) }),
-      vals |-> [nm \in { vdefs[i].n : i \in 1..Len(vdefs) } |->
-                  value(vdefs[CHOOSE i \in 1..Len(vdefs) : vdefs[i].n = nm])]]
+      worst == Worst({ verdict(vdefs[i]) : i \in 1..Len(vdefs) })
+  IN [verdict |-> worst,
+      vals |-> IF worst # "accept" THEN <<>>
+               ELSE [nm \in { vdefs[i].n : i \in 1..Len(vdefs) } |->
+                       value(vdefs[CHOOSE i \in 1..Len(vdefs) : vdefs[i].n = nm])]]
 
 \* CoerceArgumentValues.  adefs: <<[name, type, hasDef, def(internal value)]>>;
 \* alits: <<[n, v(literal)]>>.  Result: <<[n, v]>> in definition order, nullish dropped.
